@@ -7,9 +7,15 @@ import (
 )
 
 func evalEmbeddedStr(node *ast.EmbeddedStr, env *object.Env) object.PanObject {
-	// cache strs because embeddedstr ast is reverse order of source code
-	evaluatedStrs := []string{node.Latter}
+	// NOTE: embeddedstr ast is reverse order of source code.
+	// Arrange pieces in source order so that exprs are evaluated from the first one
+	pieces := []*ast.FormerStrPiece{}
 	for n := node.Former; n != nil; n = n.Former {
+		pieces = append([]*ast.FormerStrPiece{n}, pieces...)
+	}
+
+	evaluatedStrs := []string{}
+	for _, n := range pieces {
 		evaluated := Eval(n.Expr, env)
 		if err, ok := evaluated.(*object.PanErr); ok {
 			return appendStackTrace(err, node.Source())
@@ -26,10 +32,9 @@ func evalEmbeddedStr(node *ast.EmbeddedStr, env *object.Env) object.PanObject {
 			return appendStackTrace(err, node.Source())
 		}
 
-		// prepend
-		evaluatedStrs = append(
-			[]string{n.Str, evaluatedStr.Value}, evaluatedStrs...)
+		evaluatedStrs = append(evaluatedStrs, n.Str, evaluatedStr.Value)
 	}
+	evaluatedStrs = append(evaluatedStrs, node.Latter)
 
 	var out bytes.Buffer
 
